@@ -811,6 +811,34 @@ Definition c18_ok (h : histcase) : bool :=
 Definition c05_run := hist_run c05_ok.
 Definition c17_run := hist_run c17_ok.
 Definition c18_run := hist_run c18_ok.
+
+(* C04 (and C06): a well-formed stream is not answered with a protocol reset.  When ReadSlices ends
+   in "connection reset on protocol violation" although everything read from the connection so
+   far is a valid accepting CONNACK followed only by PUBLISH, PUBREL and PINGRESP packets that the
+   independent parser accepts, with nothing left over, the reset has no cause in the input (a
+   conforming broker's retransmission then meets the same fate: the handshake cannot complete).
+   Acknowledgements and SUBACK/UNSUBACK in the stream switch the rule off: whether they are in
+   order is C13's business. *)
+Definition benign_stream (ps : list packet) : bool :=
+  forallb (fun p => match p with PPublish _ _ _ _ _ _ | PPubrel _ | PPingresp => true | _ => false end) ps.
+Definition no_false_reset (t : list tev) : bool :=
+  forallb (fun e => match e with
+    | TRet i OpRead (RetErr er) _ _ _ =>
+      if has_bit er 16384 then
+        let n := conn_count (upto_call i t) in
+        if n =? 0 then true else
+        let bs := in_bytes (n - 1) t in
+        match firstn 4 bs with
+        | [32; 2; _; 0] =>
+          let '(ps, tail) := packets_of (skipn 4 bs) in
+          negb (benign_stream ps && (len tail =? 0))
+        | _ => true
+        end
+      else true
+    | _ => true end) t.
+Definition c04_full (h : histcase) : bool := c04_ok h && no_false_reset (trace_of h).
+Definition c04_run_full (l : list histcase) : list N * list N * list (N * N) :=
+  (idx_filter hist_agree l 0, idx_filter c04_full l 0, idx_known25 l 0).
 Definition all2_ok (h : histcase) : bool := all_ok h && c05_ok h && c17_ok h && c18_ok h.
 Definition all2_run := hist_run all2_ok.
 
@@ -1273,9 +1301,19 @@ Definition c11_gen (lenient_ping : bool) (h : histcase) : bool :=
 Definition c11_ok := c11_gen false.
 (* C13, no forged progress for requests: a Subscribe/Unsubscribe/Ping completes successfully only
    through a well-formed response to it (a SUBACK with one return code per filter) *)
+(* ... and nothing is handed to the application that the broker did not send as a PUBLISH: every
+   message and every BigMessage returned is found among the inbound PUBLISH packets (a BigMessage
+   whose payload never arrived completely by its header) *)
+Definition no_forged_delivery (t : list tev) : bool :=
+  forallb (fun e => match e with
+                    | TRet j OpRead (RetMsg topic msg) _ _ _ =>
+                      match find_pub (upto_call j t) topic msg with Some _ => true | None => false end
+                    | TRet _ OpRead (RetBig topic size) _ _ _ =>
+                      match find_big_any t topic size with Some _ => true | None => false end
+                    | _ => true end) t.
 Definition c13_full (h : histcase) : bool :=
   let t := trace_of h in
-  c13_ok h && fold_trace (rq_step_gen true t) (mkRq 0 []) [] t.
+  c13_ok h && fold_trace (rq_step_gen true t) (mkRq 0 []) [] t && no_forged_delivery t.
 Definition c13_run_full := hist_run c13_full.
 (* F26: fails only by the own-PINGRESP rule *)
 Definition c11_run (l : list histcase) : list N * list N * list (N * N) :=
